@@ -4,11 +4,27 @@ import (
 	"errors"
 	"fmt"
 	"io"
+	"os"
 	"strconv"
 	"strings"
+
+	"github.com/mandykoh/prism/meta"
 )
 
 var errFault = errors.New("injected I/O fault")
+
+// timeoutErr: an error type of its own (as net errors are), not a sentinel value
+type timeoutErr struct{}
+
+func (timeoutErr) Error() string   { return "i/o timeout (injected)" }
+func (timeoutErr) Timeout() bool   { return true }
+func (timeoutErr) Temporary() bool { return true }
+
+// the terminal errors a failing source is given, in rotation: an ordinary sentinel, the values
+// compressed and HTTP bodies return on truncation, and the standard library's own I/O sentinels
+var faultErrs = []error{errFault, io.ErrUnexpectedEOF, errFault, io.ErrClosedPipe, errFault, timeoutErr{}, io.ErrNoProgress, os.ErrDeadlineExceeded, io.ErrShortBuffer}
+var faultTurn int
+var lastFault error
 
 // schedReader is a conforming io.Reader over fixed data: each Read delivers between 1 and
 // len(p) bytes as dictated by sched (cyclic; empty = as much as requested), then a sticky
@@ -67,6 +83,11 @@ func schedStr(s []int) string {
 
 // drain reads a stream to its end with 512-byte requests.
 func drain(r io.Reader, limit int) (data []byte, end string) {
+	return drainExpect(r, limit, errFault)
+}
+
+// drainExpect: "fault" means exactly the error value the source was given
+func drainExpect(r io.Reader, limit int, fault error) (data []byte, end string) {
 	buf := make([]byte, 512)
 	for i := 0; i < limit; i++ {
 		n, err := r.Read(buf)
@@ -75,7 +96,7 @@ func drain(r io.Reader, limit int) (data []byte, end string) {
 			switch {
 			case err == io.EOF:
 				return data, "eof"
-			case err == errFault:
+			case err == fault:
 				return data, "fault"
 			case err == io.ErrUnexpectedEOF:
 				return data, "ueof"
@@ -93,16 +114,19 @@ type loadxResult struct {
 	pulled int
 	replay []byte
 	end    string
+	md     *meta.Data
+	fault  error
 }
 
 // runLoadx runs a real loader over a scheduled (and possibly failing) source.
 func runLoadx(name string, data []byte, sched []int, fault bool, eofWithData bool) loadxResult {
 	src := &schedReader{data: data, sched: sched, endErr: io.EOF, eofWithData: eofWithData}
 	if fault {
-		src.endErr = errFault
+		src.endErr = faultErrs[faultTurn%len(faultErrs)]
+		faultTurn++
 	}
 	md, rest, err, p := safeLoad(loaders[name], src)
-	res := loadxResult{meta: metaOut(md, err, p), pulled: src.pos}
+	res := loadxResult{meta: metaOut(md, err, p), pulled: src.pos, md: md, fault: src.endErr}
 	if p != nil || rest == nil {
 		res.out = res.meta + " nil-stream"
 		return res
@@ -113,7 +137,7 @@ func runLoadx(name string, data []byte, sched []int, fault bool, eofWithData boo
 				res.end = "panic"
 			}
 		}()
-		res.replay, res.end = drain(rest, len(data)+16)
+		res.replay, res.end = drainExpect(rest, len(data)+16, src.endErr)
 	}()
 	res.out = fmt.Sprintf("%s pulled=%d replay=%s end=%s", res.meta, res.pulled, bytesDigest(res.replay), res.end)
 	return res
@@ -121,6 +145,7 @@ func runLoadx(name string, data []byte, sched []int, fault bool, eofWithData boo
 
 func emitLoadx(c *corrCtx, class, name string, data []byte, sched []int, fault bool, eofWithData bool) loadxResult {
 	res := runLoadx(name, data, sched, fault, eofWithData)
+	retainCheck(c, name, res.md, len(data))
 	oracle := ""
 	if name == "png" || name == "auto" {
 		oracle = pngOracle(data)
